@@ -98,6 +98,7 @@ type siteRig struct {
 	hasLog      bool
 	logExcept   string
 	archive     bool // C12: browse /pub with servearchive; the directory holds a symbolic link
+	log4        bool // C20: a further log directive with the scope of the first (/), own file, no except
 	log3        bool // C20: a third log directive (scope /static, own file)
 	log2        bool // C20: a second log directive (scope /p, own file, no except)
 	hasGzip     bool
@@ -117,6 +118,7 @@ type siteRig struct {
 	limit       int                 // 0 = none
 	limitSub    int                 // nested scope /p/sub
 	subScope    string              // how the nested scope is written: /p/sub or /p/sub/
+	limitsAll   bool // a short-form "limits 300000" after the block(s)
 	limitsSplit bool                // the two scopes are written as two limits directives
 	limitPre    int                 // >0: a third scope, /p/su, written before the nested one: as deep as it, and a prefix of it as a string
 	hasMatchers bool                // C19: rewrite / redir / browse, driven by request text
@@ -601,6 +603,7 @@ func runSite(mode string) sim.RigFunc {
 				}
 				r.subScope = []string{"/p/sub", "/p/sub/"}[st.Draw(2)]
 				r.limitsSplit = pick(30) // the nested scope in a limits directive of its own
+				r.limitsAll = pick(35)
 				if r.limitSub > 0 && pick(40) {
 					r.limitPre = []int{3, 30, 3000}[st.Draw(3)] // (bodies stay below the 256 KiB net/http is willing to discard before it closes a connection)
 				}
@@ -618,6 +621,7 @@ func runSite(mode string) sim.RigFunc {
 		}
 		r.log2 = mode == "C20" && pick(50)
 		r.log3 = r.log2 && pick(60)
+		r.log4 = mode == "C20" && pick(40)
 		siteIPMask = mode == "C20" && pick(30)
 		siteHasAuth = r.hasAuth
 		r.archive = mode == "C12" && pick(30)
@@ -655,6 +659,11 @@ func runSite(mode string) sim.RigFunc {
 					fmt.Fprintf(&b, "\t\tbody %s %d\n", r.subScope, r.limitSub)
 				}
 				b.WriteString("\t}\n")
+				if r.limitsAll {
+					// the short form once more, for everything else (header and body): no request of the
+					// rig comes near it, and the scopes written above keep their own sizes
+					b.WriteString("\tlimits 300000\n")
+				}
 			}
 			if r.hasReqID {
 				b.WriteString("\trequest_id\n")
@@ -668,6 +677,11 @@ func runSite(mode string) sim.RigFunc {
 					b.WriteString("\t\tipmask 255.255.0.0\n")
 				}
 				b.WriteString("\t}\n")
+				if r.log4 {
+					// another log with the very scope of the first, and no exceptions: what the first
+					// one leaves out is no business of this one
+					fmt.Fprintf(&b, "\tlog / %s \"R={>X-Req} {status} {size}\" {\n\t\trotate_disable\n\t}\n", r.logFile+"4")
+				}
 				if r.log2 {
 					// a second log with a narrower scope and no exceptions of its own
 					fmt.Fprintf(&b, "\tlog /p %s \"R={>X-Req} {status} {size}\" {\n\t\trotate_disable\n\t}\n", r.logFile+"2")
@@ -918,6 +932,10 @@ func (r *siteRig) genReq(id, site string) *sreq {
 	case cls == 3 && r.hasAuth:
 		q.path = "/p/auth/x"
 		q.auth = pick(70)
+		if !q.auth && pick(60) {
+			// a failed login whose user name looks like a placeholder (or is somebody else's)
+			q.hdrs = append(q.hdrs, [2]string{"Authorization", "Basic " + []string{"ez5YLVJlcX06cHc=", "YXtzdGF0dXN9Yjp4", "ez9xfXttZXRob2R9Og==", "Ym9iOg==", "bWFsbG9yeTp4"}[st.Draw(5)]})
+		}
 	case cls == 4 && r.gzNot != "":
 		q.path = "/nogz/x"
 	case cls == 5 && r.logExcept != "":
@@ -1027,7 +1045,7 @@ func (r *siteRig) genReq(id, site string) *sreq {
 	switch bh := st.Draw(10); {
 	case bh < 3:
 		sc.mode = "return"
-		sc.status = []int{404, 500, 403, 400, 503, 401, 200, 0, 302}[st.Draw(9)]
+		sc.status = []int{404, 500, 403, 400, 503, 401, 200, 0, 302, 600, 999}[st.Draw(11)] // (600, 999: any status the protocol can carry)
 		sc.retErr = pick(40)
 		sc.setCL = pick(15)
 		if pick(12) {
@@ -1047,6 +1065,17 @@ func (r *siteRig) genReq(id, site string) *sreq {
 		for i := 0; i < nw; i++ {
 			n := []int{1, 10, 200, 3000, 40000}[st.Draw(5)]
 			b := bytes.Repeat([]byte(fmt.Sprintf("<%s:%d>", id, i)), 1+n/4)
+			if n >= 3000 && pick(30) {
+				// text that does not compress (an image, an archive): the coded form is as long as the plain one
+				x := uint32(len(id)*2654435761) + uint32(i+1)*40503 + uint32(r.c.T.Seed)
+				for k := range b {
+					x = x*1664525 + 1013904223
+					b[k] = byte(x >> 24)
+					if b[k] == '{' {
+						b[k] = '|' // (no template actions: the templates directive executes what it serves)
+					}
+				}
+			}
 			sc.writes = append(sc.writes, b[:n])
 			sc.flush = append(sc.flush, pick(25))
 		}
@@ -1120,7 +1149,7 @@ func (r *siteRig) hostileRequest(q *sreq) {
 	case 1:
 		q.hdrs = append(q.hdrs, [2]string{"Cookie", "=; ck"})
 	case 2:
-		q.hdrs = append(q.hdrs, [2]string{"Authorization", "Basic " + []string{"", "!!!!", "Og==", "Ym9i", "Ym9iOg==", strings.Repeat("QQ", 3000)}[st.Draw(6)]})
+		q.hdrs = append(q.hdrs, [2]string{"Authorization", "Basic " + []string{"", "!!!!", "Og==", "Ym9i", "Ym9iOg==", strings.Repeat("QQ", 3000), "ez5YLVJlcX06cHc=", "YXtzdGF0dXN9Yjp4", "ez9xfXttZXRob2R9Og=="}[st.Draw(9)]}) // (the last three: user names that look like placeholders)
 	case 3:
 		q.hdrs = append(q.hdrs, [2]string{"Authorization", []string{"Basic", "Bearer x", "Basic\tYQ==", "basic Ym9iOmh1bnRlcjI="}[st.Draw(4)]})
 	case 4:
@@ -1154,6 +1183,12 @@ func (r *siteRig) hostileRequest(q *sreq) {
 func (r *siteRig) addConn(rs []*sreq) {
 	st := r.st
 	h := &hclient{id: len(r.conns), w: r.w, ip: "127.0.0.1", opaque: r.errVisible || r.archive, src: "10.0.0.1"}
+	if (r.mode == "C18" || r.mode == "C12") && st.Draw(5) == 0 {
+		// a client that reads slowly: the end of a large response waits in the server while other
+		// requests are served
+		h.window = 2048
+		r.c.Probe("slow-reading-client")
+	}
 	for j, q := range rs {
 		q.conn, q.idx = h, j
 		var b strings.Builder
@@ -1354,7 +1389,8 @@ func (r *siteRig) judge() {
 		// decoded body
 		dec, derr := decodeBody(resp.Header.Get("Content-Encoding"), resp.Body)
 		bodyless := q.method == "HEAD" || resp.Status == 204 || resp.Status == 304
-		if mode == "C12" || mode == "C17" {
+		if mode == "C12" || mode == "C17" || (mode == "C18" && (sc.mode == "return" || sc.panicAt == 0)) {
+			// (under C18: the error responses, which no compressor may touch or append to)
 			r.judgeBody(q, resp, dec, derr, bodyless, wantStatus)
 		}
 		if mode == "C17" {
@@ -1367,6 +1403,10 @@ func (r *siteRig) judge() {
 	if mode == "C20" && r.log2 {
 		b2, _ := os.ReadFile(r.logFile + "2")
 		r.judgeLog2(strings.Split(strings.TrimRight(string(b2), "\n"), "\n"))
+	}
+	if mode == "C20" && r.log4 && r.hasLog {
+		b4, _ := os.ReadFile(r.logFile + "4")
+		r.judgeLogN(strings.Split(strings.TrimRight(string(b4), "\n"), "\n"), "/", "fourth")
 	}
 	if mode == "C20" && r.log3 {
 		b3, _ := os.ReadFile(r.logFile + "3")
